@@ -164,6 +164,12 @@ impl FormatModel {
     /// The documented validity rules; returns the name of the first violated rule in the
     /// documented precedence order (which matches `Error` variant names), or None if valid.
     pub fn validity(&self, feat: Features) -> Option<&'static str> {
+        self.violations(feat).first().copied()
+    }
+
+    /// All violated rules, in the documented precedence order.
+    pub fn violations(&self, feat: Features) -> Vec<&'static str> {
+        let mut out: Vec<&'static str> = Vec::new();
         let radix_ok = |r: u32| {
             if feat.radix {
                 (2..=36).contains(&r)
@@ -174,13 +180,13 @@ impl FormatModel {
             }
         };
         if !radix_ok(self.mantissa_radix()) {
-            return Some("InvalidMantissaRadix");
+            out.push("InvalidMantissaRadix");
         }
         if !radix_ok(self.exponent_base()) {
-            return Some("InvalidExponentBase");
+            out.push("InvalidExponentBase");
         }
         if !radix_ok(self.exponent_radix()) {
-            return Some("InvalidExponentRadix");
+            out.push("InvalidExponentRadix");
         }
         let max_radix = self.mantissa_radix().max(self.exponent_radix());
         let ctrl_ok = |c: u8| {
@@ -190,24 +196,24 @@ impl FormatModel {
         };
         if feat.format {
             if !ctrl_ok(self.digit_separator) {
-                return Some("InvalidDigitSeparator");
+                out.push("InvalidDigitSeparator");
             }
         } else if self.digit_separator != 0 {
-            return Some("InvalidDigitSeparator");
+            out.push("InvalidDigitSeparator");
         }
         if feat.format && feat.power_of_two {
             if !ctrl_ok(self.base_prefix) {
-                return Some("InvalidBasePrefix");
+                out.push("InvalidBasePrefix");
             }
             if !ctrl_ok(self.base_suffix) {
-                return Some("InvalidBaseSuffix");
+                out.push("InvalidBaseSuffix");
             }
         } else {
             if self.base_prefix != 0 {
-                return Some("InvalidBasePrefix");
+                out.push("InvalidBasePrefix");
             }
             if self.base_suffix != 0 {
-                return Some("InvalidBaseSuffix");
+                out.push("InvalidBaseSuffix");
             }
         }
         // pairwise distinct among the set ones
@@ -215,39 +221,39 @@ impl FormatModel {
         for i in 0..set.len() {
             for j in i + 1..set.len() {
                 if set[i] == set[j] {
-                    return Some("InvalidPunctuation");
+                    out.push("InvalidPunctuation");
                 }
             }
         }
         if !feat.format {
             // without the format feature only the default flag word is valid
             if self.flag_word() != ((1 << 2) | (1 << 3)) {
-                return Some("InvalidFlags");
+                out.push("InvalidFlags");
             }
-            return None;
+            return out;
         }
         if self.no_exponent_notation && self.required_exponent_notation {
-            return Some("InvalidExponentFlags");
+            out.push("InvalidExponentFlags");
         }
         if self.no_positive_mantissa_sign && self.required_mantissa_sign {
-            return Some("InvalidMantissaSign");
+            out.push("InvalidMantissaSign");
         }
         if self.no_positive_exponent_sign && self.required_exponent_sign {
-            return Some("InvalidExponentSign");
+            out.push("InvalidExponentSign");
         }
         if self.no_special && (self.case_sensitive_special || self.special_digit_separator) {
-            return Some("InvalidSpecial");
+            out.push("InvalidSpecial");
         }
         if self.integer_sep.consecutive && !self.integer_sep.any_position() {
-            return Some("InvalidConsecutiveIntegerDigitSeparator");
+            out.push("InvalidConsecutiveIntegerDigitSeparator");
         }
         if self.fraction_sep.consecutive && !self.fraction_sep.any_position() {
-            return Some("InvalidConsecutiveFractionDigitSeparator");
+            out.push("InvalidConsecutiveFractionDigitSeparator");
         }
         if self.exponent_sep.consecutive && !self.exponent_sep.any_position() {
-            return Some("InvalidConsecutiveExponentDigitSeparator");
+            out.push("InvalidConsecutiveExponentDigitSeparator");
         }
-        None
+        out
     }
 
     pub fn describe(&self) -> String {
